@@ -28,7 +28,7 @@ def run(idx, rep, tier):
     frame.r_worldaabb(idx, rep)
     colliders.r_coherence(idx, rep, relevant_to="aabb")      # 'every collider' includes colliders that were moved with update_pose
     safediv.r_sqrtdomain(idx, rep, modules=["distance3d.containment"], floor=2, unknown_ceiling=2, sqrt_calls=("np.sqrt", "math.sqrt"))
-    safediv.r_roundtrip(idx, rep, modules=["distance3d.containment"], floor=3)
+    safediv.r_roundtrip(idx, rep, modules=["distance3d.containment"], floor=1)
     hydro.r_invalidate(idx, rep, relevant_to="aabb", floor=2)      # RigidBody.aabb() is the root box of a cached tree
     degree.r_degree(idx, rep, modules=sorted(MODS), floor=20)
     purity.r_pureargs(idx, rep, ["distance3d.containment", "distance3d.colliders", "distance3d.utils"], floor=10)
